@@ -1,6 +1,5 @@
 package main
 
-
 // genC10: random histories over the whole API with heavy aliasing.  Every event logs the whole pool,
 // so "operands that are not the receiver never change" and "copies are independent" are checked by
 // the validator at every step.
